@@ -73,6 +73,10 @@ ASSUMPTIONS = [
     "name-tree keys are ordered as unsigned bytes (the usual reading of 'sorted lexically')",
     "nesting level of a top-level outline item is 1 (pdfminer's documented convention)",
     "sys.monitoring LINE events count executed pdfminer lines faithfully (chain/deep families only)",
+    "about 8% of the documents (never the budgeted ones or those packed into object streams) are opened with PDFDocument(caching=False) for every monitor; "
+    "settings.STRICT=True is set only around a second get_page_labels() call (restored in a finally) and only for trees whose "
+    "kids were not shuffled, because STRICT rejects keys that do not ascend in document order; its labels are compared with "
+    "the default-mode labels",
     "tools/dumppdf.py dumpoutline (dumppdf -T) is driven in-process from VERIF_REPO/tools; its output is read with the "
     "inverse of its own &#N; escaping. An item whose /A is an INDIRECT reference to the action dictionary is compared like a direct one (the tool "
     "ignored such actions until the repair fa229de). Left out because the tool does not support it: the page number of an item "
@@ -152,7 +156,7 @@ def check_case(case: Dict[str, Any]) -> Tuple[List[Tuple[str, str]], Dict[str, i
         return fn()
 
     try:
-        doc = PDFDocument(PDFParser(io.BytesIO(case["pdf"])))
+        doc = PDFDocument(PDFParser(io.BytesIO(case["pdf"])), caching=bool(case.get("caching", True)))
     except Exception as e:  # noqa: BLE001
         return [(_exc_key(e, "open"), repr(e))], obs
     npages = case["npages"]
@@ -218,6 +222,28 @@ def check_case(case: Dict[str, Any]) -> Tuple[List[Tuple[str, str]], Dict[str, i
             label_diff(page_attr, "PDFPage.label")
     elif page_attr is not None and any(x is not None for x in page_attr):
         fails.append(("pagelabel_without_PageLabels", "labels %r" % (page_attr[:3],)))
+
+    # ---- the same labels with settings.STRICT (a valid tree, keys ascending in document order, must pass its check)
+    if exp_labels is not None and got_labels is not None and case.get("pl_strict_ok"):
+        from pdfminer import settings
+
+        saved = settings.STRICT
+        settings.STRICT = True
+        try:
+            strict = list(itertools.islice(doc.get_page_labels(), npages))
+            if strict != got_labels:
+                i = [j for j in range(min(len(strict), len(got_labels))) if strict[j] != got_labels[j]][:1]
+                fails.append(("label_strict_differs_from_default", "settings.STRICT: %d labels, default mode %d; first difference "
+                              "at page index %r" % (len(strict), len(got_labels), i)))
+            else:
+                obs["strict_label_docs"] = 1
+                if case.get("pl_unbalanced"):
+                    obs["strict_label_docs_unbalanced_tree"] = 1
+        except Exception as e:  # noqa: BLE001
+            fails.append((_exc_key(e, "labels_strict"), "settings.STRICT=True on a valid number tree (%s, depth %s): %r"
+                          % ("unbalanced" if case.get("pl_unbalanced") else "balanced", case.get("stats", {}).get("pl_depth"), e)))
+        finally:
+            settings.STRICT = saved
 
     # ---------------------------------------------------------------- outlines
     exp_out = case["outlines"]
@@ -295,6 +321,11 @@ def check_case(case: Dict[str, Any]) -> Tuple[List[Tuple[str, str]], Dict[str, i
         f2, o2 = check_dumpoutline(case)
         fails.extend(f2)
         obs.update(o2)
+    if case.get("caching", True) is False:
+        obs["caching_off_docs"] = 1
+        obs["caching_off_lookups"] = len(case["lookups"])
+        if case.get("stats", {}).get("nt_nodes", 0) >= 3 and len(case["lookups"]) >= 4:
+            obs["caching_off_docs_multi_leaf_tree"] = 1
     if budget:
         obs["budgeted_docs"] = 1
         obs["max_steps"] = maxsteps
@@ -444,6 +475,8 @@ def minimums(tier: str) -> Dict[str, int]:
             "present:dict_present:shared_spelling": 1500, "present:tree_present:shared_spelling": 1500,
             "absent:dict_absent:spelled_like_tree_key": 800, "absent:dict_absent:no_dict:spelled_like_tree_key": 1000,
             "absent:tree_absent:spelled_like_dict_name": 3000, "feat:docs_with_shared_name_and_string_spellings": 800,
+            "caching_off_docs": 350, "caching_off_docs_multi_leaf_tree": 100, "caching_off_lookups": 5000,
+            "strict_label_docs": 2500, "strict_label_docs_unbalanced_tree": 500,
             "trees_with_direct_kids:nt": 800, "trees_with_direct_kids:pl": 800, "feat:direct_kid_nodes": 8000}
     if tier != "quick":
         base = {k: v * 22 for k, v in base.items()}
